@@ -4,6 +4,7 @@ import (
 	"bytes"
 	"context"
 	"errors"
+	"fmt"
 	"io"
 	"os"
 	"sort"
@@ -245,6 +246,10 @@ func (s *SimStore) ReceiveBlob(ctx context.Context, br blob.Ref, source io.Reade
 	if kind == FErr {
 		s.St.LogEvent("recv-ret", br.String(), false)
 		return blob.SizedRef{}, injected(s.name(), "ReceiveBlob", kind)
+	}
+	if kind == FErrNoEnt {
+		s.St.LogEvent("recv-ret", br.String(), false)
+		return blob.SizedRef{}, fmt.Errorf("%w: open of the blob's directory: %w", injected(s.name(), "ReceiveBlob", kind), os.ErrNotExist)
 	}
 	if kind == FShortStore && len(all) > 0 {
 		short := all[:len(all)-1]
